@@ -128,9 +128,13 @@ def jobs(prog, tier):
         for side in ('server', 'client'):
             sec = 'Aes128Gcm' if (chunk, side) != ('Auth', 'client') else 'Chacha20Poly1305'
             for nseg in segs:
-                js.append(('vmess::decode_payload[%s,%s,%s,%s,segments=%d]' % (sec, chunk, padding, side, nseg), make_vmess_body_job(sec, chunk, padding, side, tier, nseg), 1500))
+                if tier != 'thorough' and (chunk, padding) == ('Shake', 'Shake') and nseg > 1:
+                    continue    # masked size + padding with symbolic cuts: 11 min per job, thorough tier only
+                js.append(('vmess::decode_payload[%s,%s,%s,%s,segments=%d]' % (sec, chunk, padding, side, nseg), make_vmess_body_job(sec, chunk, padding, side, tier, nseg), 3000))
     for (chunk, padding) in (('Shake', 'Shake'), ('Auth', 'Shake'), ('Plain', 'Empty')):
         for nseg in segs:
+            if tier != 'thorough' and (chunk, padding) == ('Shake', 'Shake') and nseg > 1:
+                continue
             js.append(('vmess::decode_packet[Aes128Gcm,%s,%s,server,segments=%d]' % (chunk, padding, nseg), make_vmess_body_job('Aes128Gcm', chunk, padding, 'server', tier, nseg, packet=True), 1500))
     return js
 
